@@ -56,6 +56,10 @@ def gen_cases(ctx):
         order = rng.sample(TOKENS, k)
         if i % 4 == 0:
             order = rng.sample(TOKENS, len(TOKENS))
+        if i % 5 == 2:
+            order.insert(rng.randrange(len(order) + 1), "user_marks")
+        if c.get("filter") and i % 3 == 1:
+            c["flaky_filter"] = True
         c.update(kind="twin", order=order,
                  builder=rng.choice(["disjunctive", "agent_task", "with_jobs", "complete"]),
                  h1=rng.choice(["partial", "partial", "complete", "rejected", "one", "none", "solver"]),
@@ -100,9 +104,22 @@ def build_observers(ctx, d, case):
               "is_ready": IsReadyObserver, "is_scheduled": IsScheduledObserver,
               "position": PositionInJobObserver, "mk_reward": MakespanReward,
               "idle_reward": IdleTimeReward}
+    class ReadyMarks(FeatureObserver):
+        """A user-written feature observer that overrides `initialize_features` only (the base class
+        calls it at construction, after every dispatch and - after zeroing - at reset): it marks
+        the operations that have been ready at some point of the episode."""
+        def initialize_features(self):
+            from job_shop_lib.dispatching.feature_observers import FeatureType
+            col = self.features[FeatureType.OPERATIONS]
+            for op in self.dispatcher.raw_ready_operations():
+                col[op.operation_id, 0] = 1.0
+
     for tok in case["order"]:
         n0 = len(d.subscribers)
-        if tok == "unsched":
+        if tok == "user_marks":
+            from job_shop_lib.dispatching.feature_observers import FeatureType
+            ReadyMarks(d, feature_types=[FeatureType.OPERATIONS])
+        elif tok == "unsched":
             d.create_or_get_observer(UnscheduledOperationsObserver)
         elif tok == "history":
             d.create_or_get_observer(HistoryObserver)
@@ -130,7 +147,8 @@ def state_of(d):
 def run_twin(ctx, case):
     rng = random.Random(case["seed"])
     inst = case["instance"]
-    A = Run(inst, case.get("filter"))   # h1; reset; h2
+    # h1; reset; h2 (A's filter may be wrapped by user code that fails once during h1)
+    A = Run(inst, dict(case["filter"], flaky=True) if case.get("flaky_filter") else case.get("filter"))
     # fresh; h2 - on its own instance object, or on the very instance object A uses
     B = Run(inst, case.get("filter"), instance=A.instance if case["seed"] % 2 else None)
     if case["seed"] % 2:
@@ -168,6 +186,8 @@ def run_twin(ctx, case):
     if [type(s).__name__ for s in A.d.subscribers] != [type(s).__name__ for s in B.d.subscribers]:
         raise RuntimeError("harness: twins have different observer sets")
     h1 = list(A.r.history)
+    if case.get("flaky_filter") and gen.fail_once(A.d, rng.choice([A.d.available_operations, A.d.current_time])):
+        ctx.count("resets_after_a_user_filter_failure")
     A.d.reset(); A.r.reset()
     if case["seed"] % 5 == 0:
         A.d.reset()      # resetting twice is resetting once
@@ -424,8 +444,11 @@ def run_multi_env(ctx, case):
         return trace
 
     def build(**kw):
+        # (an iteration limit bounds `for instance in generator` loops; the env asks for instances
+        # one at a time and may be reset any number of times)
         g = GeneralInstanceGenerator(num_jobs=(2, 4), num_machines=(2, 3), duration_range=(1, 9),
-                                     seed=case["seed"])
+                                     seed=case["seed"],
+                                     **({"iteration_limit": 1} if case["seed"] % 4 == 1 else {}))
         return MultiJobShopGraphEnv(g, [DispatcherObserverConfig(t) for t in case["features"]], **kw)
 
     new_filter = None
